@@ -11,9 +11,14 @@ RULE = ('decks with 1–4 material cards, each used by 1–2 cells: Z from 1 to 
         'negative (mass) and positive (atom) cell densities, several cards in either order. The Lean spec '
         '(Spec/Comp.lean) computes from the card tokens the expected nuclide list / NB_ATOM flag / fractions / '
         'concentrations and checks the COMPOSITION block of the written file; mixed-sign cards must be rejected; the '
-        'element table is compared exhaustively with both Python enums. Distinct = distinct material cards.')
-NOT_PROVED = ["the theorems are about the composition model (compExpected, rescale); that the code's writer emits exactly the "
-              "model's lines is the correspondence (cards / rescale / table streams), not a theorem; floating-point rounding "
+        'element table is compared exhaustively with both Python enums. Stream compmodel: the real pipeline '
+        '(get_material_composition on a deck file read by the real parser … writeT4Composition) against the Lean model '
+        '(Model/Composition.lean) on 1–4 cards (30 % with one malformed card: dangling ZAID, mixed signs, ZAIDs that are '
+        'too short / Z = 0 / Z > 118 / contain letters, a repeated card number, bare signs and malformed fractions) and '
+        '1–6 cells (live or not, any material, 16 density spellings incl. ±0): the exact text of every line (amounts of '
+        'POINT_WISE compositions masked) or the class of the exception. Distinct = distinct material cards.')
+NOT_PROVED = ["the theorems are about the composition models (compExpected, rescale, Model/Composition); that the code emits exactly "
+              "the model's lines is the correspondence (cards / rescale / table / compmodel streams), not a theorem; floating-point rounding "
               "of the sum is bounded by the harness (1e-12 relative), not proved"]
 ASSUMPTIONS = ['%.15e formatting and fsum are outside the model: concentrations are compared to 1e-12 relative']
 
@@ -27,7 +32,8 @@ A_OF = {1: [1, 2, 3], 8: [16, 17, 18], 92: [235, 238, 234], 26: [54, 56, 57], 6:
 
 def plan(tier):
     q = tier == 'quick'
-    return [('cards', 300 if q else 5000, {}), ('table', 1, {}), ('rescale', 300 if q else 5000, {})]
+    return [('cards', 300 if q else 5000, {}), ('table', 1, {}), ('rescale', 300 if q else 5000, {}),
+            ('compmodel', 400 if q else 8000, {})]
 
 
 def search_plan(tier, disagreements):
@@ -88,10 +94,119 @@ def rescale_case(seed, rng, ctx):
                 sample={'fractions': frs, 'rho': rho, 'code': code[:4]}, failures=fails)
 
 
+def compmodel_case(seed, rng, ctx):
+    """get_material_composition → CCompositionMCNP → compositionConversionMCNPToT4 → constructCompositionT4 →
+    writeT4Composition (the real functions, on the M cards of a deck file read by the real MIP parser and on a
+    dictionary of cells) vs the Lean model (Model/Composition.lean): the same lines word for word (the amounts of
+    POINT_WISE compositions, which are floating-point results, masked), or the same class of exception"""
+    import io
+    import os
+    import types
+    from collections import OrderedDict
+    from ..lean import hx
+    impl.ensure()
+    from MIP import mip
+    from t4_geom_convert.Kernel.FileHandlers.Writer.WriteT4Composition import writeT4Composition
+    zs = list(range(1, 119))
+    zbase = seed % 118
+
+    def zpick():
+        return zs[(zbase + rng.randint(0, 3)) % 118]
+    nm = rng.randint(1, 4)
+    nums = rng.sample([1, 2, 3, 5, 12, 40], nm)
+    cards = []
+    for k in nums:
+        toks, _neg = gen_card(rng, zpick)
+        cards.append((k, toks))
+    malformed = rng.random() < 0.3
+    if malformed:
+        k, toks = rng.choice(cards)
+        toks = list(toks)
+        what = rng.choice(['dangling', 'mixed', 'short', 'z0', 'z119', 'letters', 'dup', 'trailing-kw', 'empty-mass', 'bare-minus', 'bad-frac'])
+        idx = [i for i, t in enumerate(toks) if '=' not in t]
+        if what == 'dangling':
+            toks.append('92235.70c')
+        elif what == 'mixed' and len(idx) >= 4:
+            j = idx[3]
+            toks[j] = toks[j][1:] if toks[j].startswith('-') else '-' + toks[j]
+        elif what == 'short':
+            toks[idx[0]] = rng.choice(['12', '1', '123', '001'])
+        elif what == 'z0':
+            toks[idx[0]] = rng.choice(['0001', '000235', '0016.70c'])
+        elif what == 'z119':
+            toks[idx[0]] = rng.choice(['119300', '120000.80c', '999999'])
+        elif what == 'letters':
+            toks[idx[0]] = rng.choice(['9223a', 'u235', '92x35.70c', '92235c'])
+        elif what == 'dup':
+            cards.append((k, gen_card(rng, zpick)[0]))
+        elif what == 'trailing-kw':
+            toks.append('gas=1')
+        elif what == 'bare-minus' and len(idx) >= 2:
+            toks[idx[1]] = '-' if toks[idx[1]].startswith('-') else rng.choice(['+', '-'])
+        elif what == 'bad-frac' and len(idx) >= 2:
+            toks[idx[1]] = ('-' if toks[idx[1]].startswith('-') else '') + rng.choice(['1.2.3', 'e5', '1e', '.', '1-', '--1'])
+        elif what == 'empty-mass':
+            toks[idx[0]] = rng.choice(['.70c', '1001.'])
+        cards = [(kk, toks if kk == k and tt is not None and what != 'dup' else tt) for kk, tt in cards]
+    dens = ['-2.7', '-1.0', '-7.8e0', '0.05', '1.2-2', '6.0e-2', '-0.5', '-2.70', '-1.', '5-2', '-2.7', '0.0', '-0.0',
+            '1.d-1', '-.5', '+2.5']
+    cells = OrderedDict()
+    spec_cells = []
+    for i in range(rng.randint(1, 6)):
+        mat = rng.choice(nums + [0, 7])
+        live = rng.random() < 0.8
+        d = rng.choice(dens)
+        why = rng.choice(['imp', 'univ', 'fill'])
+        cells[i + 1] = types.SimpleNamespace(importance=1.0 if live or why != 'imp' else 0.0,
+                                             universe=0 if live or why != 'univ' else 3,
+                                             fillid=None if live or why != 'fill' else 4,
+                                             materialID=str(mat), density=d if mat != 0 else None)
+        spec_cells.append((live, mat, d))
+    text = 'deck\n1 0 -1\n2 0 1\n\n1 so 1.0\n\n' + ''.join('m%d %s\n' % (k, ' '.join(t)) for k, t in cards) + '\n'
+    path = os.path.join(impl.scratch_dir(), 'comp.imcnp')
+    with open(path, 'w') as f:
+        f.write(text)
+    buf = io.StringIO()
+    import contextlib
+    import warnings
+    try:
+        with contextlib.redirect_stdout(io.StringIO()), warnings.catch_warnings():
+            warnings.simplefilter('ignore')
+            writeT4Composition(mip.MIP(path), cells, buf)
+        lines = buf.getvalue().split('\n')
+        assert lines[0] == '' and lines[1] == 'COMPOSITION' and lines[-2] == 'END_COMPOSITION', lines[:3]
+        out, pw = [], False
+        for ln in lines[2:-2]:
+            ws = ln.split()
+            if ws and ws[0] in ('POINT_WISE', 'DENSITY'):
+                pw = ws[0] == 'POINT_WISE' and ws[2] != 'm0'
+            elif pw and len(ws) == 2:
+                ln = ln[:ln.rindex(' ') + 1] + '*'
+            out.append(ln)
+        code = 'ok ' + ' '.join(hx(ln) for ln in out)
+    except Exception as ex:  # noqa
+        code = 'ok error ' + type(ex).__name__
+    req = '(comp (cards %s) (cells %s))' % (
+        ' '.join('(m %d %s)' % (k, ' '.join(hx(t) for t in toks)) for k, toks in cards),
+        ' '.join('(c %d %d %s)' % (1 if lv else 0, m, hx(d)) for lv, m, d in spec_cells))
+    model = ctx['drv'].ask('compmodel ' + hx(req))
+    key = h(req)
+    fails = []
+    if model != code:
+        fails.append(fail('disagreement', 'COMPOSITION block: code %s / model %s' % (code[:300], model[:300]),
+                          {'stream': 'compmodel'}, {'cards': cards, 'cells': spec_cells}))
+    return dict(hashes=[key], nontrivial_hashes=[key],
+                dist={'compmodel:' + ('error-' + code.split()[-1] if code.startswith('ok error') else 'written'): 1,
+                      'compmodel:malformed' if malformed else 'compmodel:plain': 1},
+                sample={'cards': cards[:2], 'code': code[:200]}, failures=fails)
+
+
 def run_case(stream, seed, ctx, params):
     rng = random.Random(seed)
     if stream == 'rescale':
         return rescale_case(seed, rng, ctx)
+    if stream == 'compmodel':
+        return compmodel_case(seed, rng, ctx)
     drv = ctx['drv']
     if stream == 'table':
         from t4_geom_convert.Kernel.Composition.EIsotopeNameElementT4 import EIsotopeNameElement
